@@ -356,6 +356,90 @@ func runC03(w *World, r *Report, tier string) {
 		}
 	}
 
+	// ---- R2 (errors stick): in every step, a failed marshal, write or read is recorded in s.err before the step returns
+	{
+		fErr := w.Field("xmpp.Session.err")
+		nSticky := 0
+		// (resume is not in the list: a <resume/> that cannot be written makes it return false, and the bind that follows
+		// fails on the same broken connection — the failure is reported one step later, which the statement allows)
+		for _, k := range []string{"xmpp.(*Session).bind", "xmpp.(*Session).rfc3921Session", "xmpp.(*Session).EnableStreamManagement", "xmpp.(*Session).startTlsIfSupported"} {
+			fn := w.Func(k)
+			cnt := map[string]int{}
+			allInstrsH(fn, func(in ssa.Instruction) {
+				call, ok := in.(*ssa.Call)
+				if !ok {
+					return
+				}
+				ev := errResult(call)
+				if ev == nil {
+					return
+				}
+				ck := w.callKey(call)
+				if !(ck == "encoding/xml.Marshal" || strings.HasSuffix(ck, ".Write") || ck == "fmt.Fprintf" || strings.HasSuffix(ck, ".Decode") || strings.HasSuffix(ck, ".DecodeElement") || ck == "stanza.NextPacket" || ck == "xmpp.Transport.StartTLS" || ck == "stanza.NewIQ") {
+					return
+				}
+				// the result may be assigned straight to s.err
+				direct := false
+				for _, rf := range *ev.Referrers() {
+					// `s.err = f()` itself: an unconditional store in the block of the call
+					if st, ok := rf.(*ssa.Store); ok && st.Val == ev && st.Block() == call.Block() {
+						if fa, ok := st.Addr.(*ssa.FieldAddr); ok && fieldOfAddr(fa) == fErr {
+							direct = true
+						}
+					}
+				}
+				cnt[ck]++
+				cons := fmt.Sprintf("%s→%s#%d#recorded", k, ck, cnt[ck])
+				nSticky++
+				if direct {
+					r.Ok("R2", cons, "assigned to s.err")
+					return
+				}
+				bad := ""
+				nFail := 0
+				walkPaths(after(call), nil, nil, 20000, func(path []ssa.Instruction, end pathEnd) {
+					if _, isRet := path[len(path)-1].(*ssa.Return); !isRet {
+						return
+					}
+					if !pathAsserts(path, func(c ssa.Value, truth bool) bool { return assertsNonNil(c, truth, ev) }) {
+						return
+					}
+					nFail++
+					rec := false
+					forPath(path, func(i int, x ssa.Instruction) {
+						if st, ok := x.(*ssa.Store); ok {
+							if fa, ok := st.Addr.(*ssa.FieldAddr); ok && fieldOfAddr(fa) == fErr {
+								v := rvI(st.Val, i)
+								switch y := v.(type) {
+								case *ssa.MakeInterface:
+									rec = true
+								case *ssa.Call:
+									ck2 := w.callKey(y)
+									if ck2 == "errors.New" || ck2 == "fmt.Errorf" || alwaysNonNil(y.Call.StaticCallee(), 0) {
+										rec = true
+									}
+								}
+								if v == ev {
+									rec = true // the failed call's own error (non-nil on this path)
+								}
+							}
+						}
+					})
+					if !rec {
+						bad = "the failure of " + ck + " is not recorded in s.err (return at " + w.ipos(path[len(path)-1]) + "): the negotiation goes on after a request that was never sent or a reply that was never read"
+					}
+				})
+				if nFail == 0 {
+					bad = "the error of " + ck + " is never tested"
+				}
+				r.Check(bad == "", "R2", cons, w.ipos(call), bad, "its failure edge stores a non-nil error into s.err")
+			})
+		}
+		if nSticky < 10 {
+			r.Undecided("R2", "steps#fallible-calls", "-", fmt.Sprintf("only %d marshal/write/read calls found in the step functions, 10 confirmed by hand", nSticky))
+		}
+	}
+
 	// ---- R3 (resume reply): a reply to <resume/> that is neither <resumed/> nor <failed/> is an error, not a refusal
 	{
 		rs := w.Func("xmpp.(*Session).resume")
